@@ -962,6 +962,7 @@ impl World {
         }
         self.replicas[r].time_travel = true;
         self.replicas[r].model_doc = None;
+        self.replicas[r].clean_digest = Some(self.digest_of(r)?);
         self.bump("probe.reload_until");
         if cp.heads.len() > 1 {
             self.bump("probe.reload_until_multihead");
@@ -1057,7 +1058,7 @@ impl World {
                 viol!(self, "resolve-removes-conflict", "still-in-conflict", "{} is still in conflict after resolve_as(.., {})", uuid, chosen);
             }
             if chosen_is_winner && before["doc"] != after["doc"] {
-                viol!(self, "resolve-winner-keeps-document", "resolve-winner-changed-doc", "resolving {} in favour of the current winner changed the document: {}", uuid, diff_digest(&before, &after));
+                viol!(self, "resolve-winner-keeps-document", "resolve-winner-changed-doc", "resolving {} in favour of the current winner {} changed the document:\n before={}\n after={}", uuid, chosen, trunc(&before["doc"]), trunc(&after["doc"]));
             }
             if !uuid.starts_with('^') {
                 // the object's visible state equals the state at the chosen revision
@@ -1322,6 +1323,9 @@ impl World {
             if self.is(&["C16"]) {
                 self.check_array_orders(r, &st, when)?;
             }
+            if self.is(&["C06", "C07"]) {
+                self.check_array_merge(r, &d, &st, when)?;
+            }
         }
         if self.is(&["C01", "C02"]) && when != "commit" {
             self.check_reopen_equals_live(r, &d, when)?;
@@ -1511,6 +1515,112 @@ impl World {
                     }
                 }
                 Err(e) => viol!(self, "array-reconstructs", "array-order-unreadable", "{}: stored revision {} of {} cannot be reconstructed: {}", when, rev, uuid, e),
+            }
+        }
+        Ok(())
+    }
+
+    /// C06: a flattened array with several live leaves reads as a merge without loss or
+    /// duplication (constraints (1)-(5) of DESIGN §5.6).
+    fn check_array_merge(&mut self, r: usize, d: &Value, st: &RefState, when: &str) -> Res {
+        let doc = match d["doc"].get("ok") {
+            Some(x) => x.clone(),
+            None => return Ok(()),
+        };
+        // (1) every identifier occurs at most once in the whole document
+        let all = match docgen::tracked_objects(&doc) {
+            Ok(a) => a,
+            Err(e) => viol!(self, "no-duplication", "merge-duplicate", "{}: replica {}: {}\n read={}", when, r, e, trunc(&doc)),
+        };
+        let arrays: Vec<String> = st.trees.keys().filter(|u| u.starts_with('^')).cloned().collect();
+        for uuid in arrays {
+            let (leaves, w) = refstore::tree_rule(&st.trees[&uuid]);
+            if leaves.len() < 2 {
+                continue;
+            }
+            let w = w.unwrap();
+            if Rev::parse(&w).map_or(false, |x| x.is_deleted()) {
+                continue;
+            }
+            let (owner, key) = match uuid[1..].rsplit_once('@') {
+                Some(x) => x,
+                None => continue,
+            };
+            let owner_obj = match find_tracked(&doc, owner) {
+                Some(o) => o,
+                None => continue,
+            };
+            let got: Vec<String> = match owner_obj.get(key).and_then(|x| x.as_array()) {
+                Some(a) => a.iter().filter_map(|e| e.get("_id").and_then(|x| x.as_str()).map(|s| s.to_string())).collect(),
+                None => continue,
+            };
+            let mut orders: Vec<(String, Vec<String>)> = vec![];
+            let mut ok = true;
+            for l in &leaves {
+                match st.array_order(&uuid, l) {
+                    Ok(o) => orders.push((l.clone(), o.iter().filter_map(|x| x.as_str().map(|s| s.to_string())).collect())),
+                    Err(_) => ok = false,
+                }
+            }
+            if !ok {
+                continue;
+            }
+            self.bump("probe.array_merge_checked");
+            if leaves.len() >= 3 {
+                self.bump("probe.array_merge_3plus_leaves");
+            }
+            let live = |e: &String| st.winner(e).map_or(false, |w| !Rev::parse(&w).map_or(false, |x| x.is_deleted()));
+            let union: BTreeSet<String> = orders.iter().flat_map(|(_, o)| o.iter().cloned()).collect();
+            // (2) nothing lost: every live element of some concurrent version is in the document
+            for e in &union {
+                if live(e) {
+                    if !all.contains_key(e) {
+                        viol!(self, "no-loss", "merge-lost-element", "{}: replica {}: element {} is in a concurrent version of {} and its object is live, but it is nowhere in the document\n versions={:?}\n read array={:?}", when, r, e, uuid, orders, got);
+                    }
+                } else {
+                    self.bump("probe.array_merge_ghost");
+                    // (5) deleted elements never reappear
+                    if got.contains(e) {
+                        viol!(self, "deleted-stay-deleted", "merge-ghost", "{}: replica {}: element {} of {} is deleted but appears in the array {:?}", when, r, e, uuid, got);
+                    }
+                }
+            }
+            // (2) nothing invented
+            for e in &got {
+                if !union.contains(e) {
+                    viol!(self, "no-invention", "merge-foreign-element", "{}: replica {}: array {} shows element {} which is in none of its concurrent versions {:?}", when, r, uuid, e, orders);
+                }
+            }
+            let pos = |v: &Vec<String>, e: &String| v.iter().position(|x| x == e);
+            let keeps_order = |o: &Vec<String>| -> Option<(String, String)> {
+                let present: Vec<&String> = o.iter().filter(|e| got.contains(e)).collect();
+                for i in 0..present.len() {
+                    for j in i + 1..present.len() {
+                        if pos(&got, present[i]) > pos(&got, present[j]) {
+                            return Some((present[i].clone(), present[j].clone()));
+                        }
+                    }
+                }
+                None
+            };
+            // (3) the winner's elements keep their relative order
+            let wo = &orders.iter().find(|(l, _)| *l == w).unwrap().1;
+            if let Some((a, b)) = keeps_order(wo) {
+                viol!(self, "winner-order", "merge-winner-order", "{}: replica {}: array {} reads {:?}; the winning version {:?} has {} before {}", when, r, uuid, got, wo, a, b);
+            }
+            // (4) two versions that agree on their common elements are both preserved
+            if orders.len() == 2 {
+                let (a, b) = (&orders[0].1, &orders[1].1);
+                let common_a: Vec<&String> = a.iter().filter(|e| b.contains(e)).collect();
+                let common_b: Vec<&String> = b.iter().filter(|e| a.contains(e)).collect();
+                if common_a == common_b {
+                    self.bump("probe.array_merge_two_compatible");
+                    for o in [a, b] {
+                        if let Some((x, y)) = keeps_order(o) {
+                            viol!(self, "both-orders", "merge-order-lost", "{}: replica {}: array {} reads {:?}; the concurrent versions {:?} and {:?} agree on their common elements, yet {} no longer precedes {}", when, r, uuid, got, a, b, x, y);
+                        }
+                    }
+                }
             }
         }
         Ok(())
